@@ -29,8 +29,39 @@ RULE = ("(a) ALL 65536 words: int(from_integer(w)) == w with opcodes 13-15 mappe
 ASSUMPTIONS = ["label/variable names never equal a mnemonic; numeric operands are 12-bit, data values 16-bit"]
 
 
+def fit_ast(ni, sizes, data_first):
+    """ni instructions and variables of the given sizes: programs that fill the 4096-word memory (almost) exactly."""
+    data = [{"name": "v%d" % j, "values": [(7 * j + i) & 0xFFFF for i in range(n)]} for j, n in enumerate(sizes)]
+    refs = [d["name"] for d in data]
+    text = []
+    for i in range(ni):
+        mn = (rtoy.ADDR_OPS + rtoy.MNEMONICS)[i % 7]
+        arg = None
+        if mn in rtoy.ADDR_OPS:
+            arg = {"ref": refs[i % len(refs)]} if refs and i % 3 else {"num": (i * 37) % 4096, "hex": bool(i % 2)}
+        text.append({"op": mn, "arg": arg, "inline": "l%d" % i if i % 1000 == 999 else None})
+    return {"data_first": data_first, "data": data, "text": text, "directives": True, "text_directive": True, "data_directive": True}
+
+
+def fit_cases():
+    for total in (4096, 4095):
+        for ni, sizes in ((total - 96, [90, 5, 1]), (total - 1, [1]), (1, [total - 1]), (total // 2, [total - total // 2])):
+            for data_first in (False, True):
+                yield {"kind": "fit", "ni": ni, "sizes": sizes, "data_first": data_first}
+    yield {"kind": "fit", "ni": 4096, "sizes": [], "data_first": False}
+
+
 def check(case, stats):
     k = case["kind"]
+    if k == "fit":
+        ast = fit_ast(case["ni"], case["sizes"], case["data_first"])
+        st2 = core.Stats()
+        try:
+            check_asm({"kind": "asm", "ast": ast, "style": {}}, st2)
+        except Violation as v:
+            raise Violation(v.clause, case, v.detail[:600])
+        stats.count(case, case["ni"] + sum(case["sizes"]) == 4096, {"fit", "fit-total:%d" % (case["ni"] + sum(case["sizes"]))}, sample_tag="fit")
+        return
     if k == "words":
         return check_words(case, stats)
     if k == "objects":
@@ -209,6 +240,7 @@ def asm_case(draw):
         "blank": draw(st.lists(st.booleans(), min_size=1, max_size=3)),
         "blankline": draw(st.lists(st.sampled_from(["", "   ", "# only a comment", "\t", '# "', "# .data"]), min_size=1, max_size=2)),
         "trailing_newline": draw(st.booleans()),
+        "num": draw(st.lists(st.integers(0, 3), min_size=1, max_size=4)),
     }
     return {"kind": "asm", "ast": ast, "style": style}
 
@@ -230,9 +262,11 @@ def shards(tier, seed):
         items.append({"what": "words", "lo": i * 4096, "hi": (i + 1) * 4096})
     for mn in rtoy.MNEMONICS:
         items.append({"what": "objects", "mn": mn})
-    n, k = (200, 4) if tier == "quick" else (2000, 16)
+    n, k = (500, 4) if tier == "quick" else (3000, 16)
     for i in range(k):
         items.append({"what": "asm", "n": n, "seed": seed * 1000 + i})
+    for i in range(4):
+        items.append({"what": "fit", "part": i, "parts": 4})
     return items
 
 
@@ -240,6 +274,8 @@ def run_shard(item, stats):
     km = core.known_matcher(ID, globals().get("known_match"))
     if item["what"] == "words":
         core.run_cases([{"kind": "words", "lo": item["lo"], "hi": item["hi"]}], check, stats, km)
+    elif item["what"] == "fit":
+        core.run_cases([c for i, c in enumerate(fit_cases()) if i % item["parts"] == item["part"]], check, stats, km)
     elif item["what"] == "objects":
         core.run_cases([{"kind": "objects", "mn": item["mn"], "lo": 0, "hi": 4096}], check, stats, km)
     else:
